@@ -69,7 +69,8 @@ Restart ==
 EncodeBegin(sh, c) ==
     /\ pc = "idle" /\ nops < MaxOps /\ ValidCtx(c)
     /\ pc' = "run" /\ call' = EncInit(MkBatch(sh), c, seq) /\ res' = NoRes
-    /\ hist' = Append(hist, [op |-> "encode", batch |-> MkBatch(sh), ctx |-> c])
+    /\ hist' = Append(hist, [op |-> "encode", batch |-> MkBatch(sh), ctx |-> c,
+                             ov |-> (Len(hist) + Len(sh) + c.max) % 3])       \* which of the three public overloads the replay uses
     /\ UNCHANGED << dev, stream, seq, mon, nops >>
 
 EncodeStep ==
